@@ -1516,6 +1516,12 @@ pub fn explore(
     }
     shape.put("more_than_64_terminals", J::Bool(g.terms.len() > 64));
     shape.put("more_than_64_nonterminals", J::Bool(g.nts.len() > 64));
+    let rules = g.rules();
+    let longest = rules.iter().map(|r| r.rhs.len()).max().unwrap_or(0);
+    shape.put("rule_with_10_or_more_fields", J::Bool(longest >= 10));
+    shape.put("rule_with_17_or_more_fields", J::Bool(longest >= 17));
+    shape.put("more_than_64_rules", J::Bool(rules.len() > 64));
+    shape.put("more_than_255_rules", J::Bool(rules.len() > 255));
     let emitted_states = emitted_states;
     shape.put("emitted_states", J::uz(emitted_states));
     shape.put(
